@@ -1,4 +1,5 @@
 import MpVerif.C12.Lemmas
+import MpVerif.C12.LemmasTerms
 import MpVerif.Gen.ObjFilter
 /-!
 # C12 — the solver receives exactly the objective(s) the user selected
@@ -693,6 +694,25 @@ theorem C12_gen_skel_delivery :
     ObjFilter.skel_WriteSolFile_objno =
       ["call file.?(\"objno {} {}\\n\", operator-(sol.objno(), 1), sol.status())"] := ⟨rfl, rfl, rfl⟩
 
+/-- `ProblemFlattener::Convert(MutObjective)`: G terms, then the expression's linear terms and the constant's fixed variable
+    are appended, and only THEN `le.sort_terms()` / `QPTerms().sort_terms()` run, before the objective is added - the order
+    `deliveredLin` assumes (seeded change C12-6 moved the two calls up) -/
+theorem C12_gen_skel_Convert_objective : ObjFilter.skel_Flattener_Convert_objective = [
+    "decl obj_src := GetValuePresolver().GetSourceNodes().GetObjValues()().Add()",
+    "call GetCopyLink().AddEntry({obj_src, GetValuePresolver().GetTargetNodes().GetObjValues()().Add()})",
+    "decl auto_link_scope := {?(), obj_src}",
+    "decl le := ToLinTerms(obj.linear_expr())",
+    "decl e := obj.nonlinear_expr()",
+    "decl eexpr := EExpr()",
+    "if e.operator void (mp::internal::ExprBase::*)() const() { store eexpr := this.Visit(e) ; call le.add(eexpr.GetLinTerms()) ; if (fabs(eexpr.constant_term()) != 0) { call le.add_term(1, MakeFixedVar(eexpr.constant_term())) } }",
+    "call le.sort_terms()",
+    "call eexpr.GetQPTerms().sort_terms()",
+    "decl ctx := ((MAX == obj.type()) ? CTX_POS : CTX_NEG)",
+    "call ?().PropagateResult2LinTerms(le, ?().MinusInfty(), ?().Infty(), ctx)",
+    "call ?().PropagateResult2QuadTerms(eexpr.GetQPTerms(), ?().MinusInfty(), ?().Infty(), ctx)",
+    "decl lo := {obj.type(), move(le.coefs()), move(le.vars())}",
+    "call ?().AddObjective(QuadraticObjective(move(lo), move(eexpr.GetQPTerms())))"] := rfl
+
 /-- `SetObjNames` as a whole: guard, index arithmetic, loop, name taken from `.row` entry `io` or generated `_sobj[io-num_c+1]` -/
 theorem C12_gen_skel_SetObjNames : ObjFilter.skel_SetObjNames = [
     "if GetModel().num_objs() { decl num_c := GetModel().num_cons() ; decl o1 := (GetEnv().objno_used() - 1) ; decl o2 := (o1 + 1) ; if GetEnv().multiobj() { store o1 := 0 ; store o2 := GetModel().num_objs() } ; decl names_o := vector() ; for (decl io := (num_c + o1) ; (io < (num_c + o2)) ; ++(io)) { if (npco.number_read() > io) { call names_o.push_back(npco.name(io, default).operator basic_string()) } else { call names_o.push_back(operator+(operator+(\"_sobj[\", to_string(((io - num_c) + 1))), ']')) } } ; call GetModel().SetObjNames(vector(move(names_o))) }"] := rfl
@@ -832,6 +852,67 @@ example : needObj true 1 2 = true ∧ resultingObjIndex true 2 < resultingNObj t
 -- hypotheses of the generated-tie theorems: the default and a given objective number are in range
 example : rawInRange (-1) ∧ rawInRange 5 := by constructor <;> (constructor <;> decide)
 end AuditExamples
+
+/-! ## What the solver receives: a finite map, not a list (round 6)
+
+`delivered` above says *which* objectives reach the solver.  Their linear part reaches it as a sparse vector that solver
+APIs apply per variable (`obj[var] := coef`); it denotes the intended objective only if no variable occurs twice.  The
+model of `LinTerms::sort_terms` (called at the end of `ProblemFlattener::Convert(MutObjective)`) establishes exactly that. -/
+
+theorem sumCoef_append (a b : List (Nat × Int)) (k : Nat) : sumCoef (a ++ b) k = sumCoef a k + sumCoef b k := by
+  induction a with
+  | nil => simp [sumCoef]
+  | cons t a ih => obtain ⟨w, d⟩ := t; simp only [List.cons_append, sumCoef, ih]; omega
+
+/-- **Well-formedness of the delivered linear part**: after `sort_terms` no variable occurs twice and no coefficient is
+    zero - for every term list (any number of repeated variables, zero entries, any order). -/
+theorem C12_delivered_terms_are_a_map (l : List (Nat × Int)) :
+    (keys (sortTerms l)).Nodup ∧ ∀ t ∈ sortTerms l, t.2 ≠ 0 := by
+  have hasc : Asc (accumulate [] l) := accumulate_asc l [] (by simp [Asc, keys])
+  obtain ⟨hle, heq⟩ := accumulate_length l [] (by simp [Asc, keys])
+  simp only [sortTerms]
+  split
+  · constructor
+    · have hsub : (keys ((accumulate [] l).filter (fun t => t.2 ≠ 0))).Sublist (keys (accumulate [] l)) :=
+        (List.filter_sublist).map _
+      exact (List.Pairwise.sublist hsub hasc).imp (fun h => Nat.ne_of_lt h)
+    · intro t ht
+      have := (List.mem_filter.mp ht).2
+      simpa using this
+  · rename_i hnl
+    have : (accumulate [] l).length = ([] : List (Nat × Int)).length + l.length := by
+      simp only [List.length_nil] at hle ⊢; omega
+    obtain ⟨h1, h2, _⟩ := heq this
+    exact ⟨h2, h1⟩
+
+/-- **The delivered linear part denotes the right function**: the coefficient of every variable is the sum of all its
+    entries before merging. -/
+theorem C12_delivered_terms_value (l : List (Nat × Int)) (k : Nat) :
+    sumCoef (sortTerms l) k = sumCoef l k := by
+  simp only [sortTerms]
+  split
+  · rw [sumCoef_filter_nz, accumulate_sum]; simp [sumCoef]
+  · rfl
+
+/-- **Delivered-objective theorem with the well-formedness clause.**  For G terms `g`, expression-derived linear terms `e`
+    and the optional constant term `cv`: the vector handed to `Set{Linear,Quadratic}Objective` is a finite map without
+    zero entries, and what a solver holds after assigning it per variable is, for every variable, the G coefficient plus
+    the expression-derived coefficient plus the constant's term. -/
+theorem C12_delivered_lin (g e : List (Nat × Int)) (cv : Option (Nat × Int)) :
+    (keys (deliveredLin g e cv)).Nodup ∧ (∀ t ∈ deliveredLin g e cv, t.2 ≠ 0) ∧
+    ∀ k, heldCoef (deliveredLin g e cv) k = sumCoef g k + sumCoef e k + sumCoef cv.toList k := by
+  obtain ⟨h1, h2⟩ := C12_delivered_terms_are_a_map (g ++ e ++ cv.toList)
+  refine ⟨h1, h2, ?_⟩
+  intro k
+  rw [deliveredLin, heldCoef_eq_sumCoef _ k h1, C12_delivered_terms_value, sumCoef_append, sumCoef_append]
+
+-- why the clause matters: the unmerged list of seeded change C12-6 (`min 3*x0 + x1 + (x0-2)^2`: G terms 3*x0 + x1,
+-- expansion term -4*x0) sums to -1 for x0 but a solver assigning per variable holds -4; after `sortTerms` both agree
+example : sumCoef [(0, 3), (1, 1), (0, -4)] 0 = -1 ∧ heldCoef [(0, 3), (1, 1), (0, -4)] 0 = -4 ∧
+    deliveredLin [(0, 3), (1, 1)] [(0, -4)] (some (2, 1)) = [(0, -1), (1, 1), (2, 1)] ∧
+    heldCoef (deliveredLin [(0, 3), (1, 1)] [(0, -4)] (some (2, 1))) 0 = -1 := by decide
+-- no merge needed: the list is handed over as it is (not re-sorted), as the code does
+example : sortTerms [(2, 5), (0, 1)] = [(2, 5), (0, 1)] ∧ sortTerms [(2, 5), (0, 0), (2, -5), (1, 1)] = [(1, 1)] := by decide
 
 /-! ### non-vacuity: concrete runs of the model -/
 
